@@ -578,6 +578,33 @@ async def c08_mqtt_stale_payload_obj(w):
     return {"reproduced": got != want, "observed": got, "expected": want}
 
 
+async def c10_empty_file(w):
+    """GlobalContextMgr.load_file on a 0-byte file: the file IS a context (registered, with its empty source and mtime), so that
+    a later reload sees it change when text is written into it."""
+    import os, tempfile, shutil
+    from custom_components.pyscript.global_ctx import GlobalContext, GlobalContextMgr
+    await boot_full()
+    d = tempfile.mkdtemp(prefix="c10e_")
+    try:
+        path = os.path.join(d, "empty.py")
+        open(path, "w").close()
+        g = GlobalContext("file.c10empty", global_sym_table={"__name__": "file.c10empty"}, manager=GlobalContextMgr)
+        err = None
+        try:
+            await GlobalContextMgr.load_file(g, path)
+        except Exception as e:  # noqa
+            err = repr(e)
+        reg = GlobalContextMgr.get("file.c10empty")
+        obs = {"registered": reg is g, "source": getattr(g, "source", "<unset>"), "has_mtime": getattr(g, "mtime", None) is not None, "error": err}
+        if reg is not None:
+            GlobalContextMgr.delete("file.c10empty")
+    finally:
+        shutil.rmtree(d, ignore_errors=True)
+    await shutdown()
+    return {"reproduced": obs != {"registered": True, "source": "", "has_mtime": True, "error": None}, "observed": obs,
+            "expected": {"registered": True, "source": "", "has_mtime": True, "error": None}}
+
+
 async def c12_outgoing(w):
     """service.call / domain.service() with control-keyword look-alikes; data delivered must equal the given kwargs
     minus control keywords of the recognised type."""
